@@ -34,6 +34,10 @@ func Harness_C06_run() {
 	verifMapOrders(false)
 	limit := 1 + nondetChoice("limit", 2)
 	ncalls := 3
+	if thorough() {
+		limit = 1 + nondetChoice("limit3", 3)
+		ncalls = 4
+	}
 	log := &verifLog{gates: map[string]chan struct{}{}}
 	mux := verifMap{}
 	var batch jmessages
